@@ -49,7 +49,7 @@ func genC19(t *rapid.T) CaseC19 {
 	c.Ind = rapid.SampledFrom(blanks).Draw(t, "ind")
 	c.Safe = rapid.Bool().Draw(t, "safe")
 	c.Stale = rapid.Bool().Draw(t, "stale")
-	c.Damage = rapid.SampledFrom([]string{"none", "none", "truncate", "truncate", "corrupt", "missing", "directory"}).Draw(t, "damage")
+	c.Damage = rapid.SampledFrom([]string{"none", "none", "truncate", "truncate", "corrupt", "missing", "directory", "bad-document"}).Draw(t, "damage")
 	c.At = rapid.IntRange(0, 100000).Draw(t, "at")
 	c.Byte = rapid.SampledFrom([]byte{'<', '>', '{', '}', '"', '\\', ' ', 0, 0xff, 'x', '/', '&', '['}).Draw(t, "byte")
 	g := VGen{Keys: xmlKeyNames, Nulls: false, StringGen: func(t *rapid.T, l string) string { return genJSONString(t) }}
@@ -312,6 +312,23 @@ func checkC19(c CaseC19, info *Info) *Failure {
 		if werr := os.WriteFile(fn, data, 0o644); werr != nil {
 			return failf("harness-io", "%v", werr)
 		}
+	case "bad-document":
+		// a document that cannot be decoded is inserted at a document boundary: the Maps before it, and an error
+		j := c.At % (len(spans) + 1)
+		cut := len(data)
+		if j < len(spans) {
+			cut = spans[j].start
+		}
+		bad := `{"k":"v","big":1e999}`
+		if c.Kind == "xml" {
+			bad = `<k><v>1</v><big></k>`
+		}
+		data = append(append(append([]byte(nil), data[:cut]...), bad...), data[cut:]...)
+		expectN, expectErr = j, true
+		at = cut
+		if werr := os.WriteFile(fn, data, 0o644); werr != nil {
+			return failf("harness-io", "%v", werr)
+		}
 	case "corrupt":
 		if len(data) == 0 {
 			info.Skip = "empty file"
@@ -334,7 +351,7 @@ func checkC19(c CaseC19, info *Info) *Failure {
 		return failf("raw-variant-differs", "%v\nfile %q", e1, data)
 	}
 	switch c.Damage {
-	case "none", "truncate":
+	case "none", "truncate", "bad-document":
 		if len(got) != expectN {
 			return failf("read-back-count", "%s at %d: read back %d Maps, want %d (errors %v / %v)\nfile %q", c.Damage, at, len(got), expectN, e1, e2, data)
 		}
